@@ -132,9 +132,9 @@ theorem extendOne_frame {s s' : State} {g : Bool} {diff ns : Nat} {d d' : BA}
   unfold extendOne at h; ok_branches h <;> exact ⟨⟨rfl, rfl⟩, rfl⟩
 
 theorem extendAll_frame {g : Bool} {diff ns : Nat} {l : List BA} : ∀ {s s' : State} {l' : List BA},
-    extendAll g diff ns s l = .ok (s', l') → Frame s s' ∧ sumCv l' = sumCv l := by
+    extendAll g diff ns s l = .ok (s', l') → Frame s s' ∧ sumCv l' = sumCv l ∧ l'.map (·.cv) = l.map (·.cv) := by
   induction l with
-  | nil => intro s s' l' h; simp only [extendAll] at h; cases h; exact ⟨Frame.refl _, rfl⟩
+  | nil => intro s s' l' h; simp only [extendAll] at h; cases h; exact ⟨Frame.refl _, rfl, rfl⟩
   | cons d ds ih =>
     intro s s' l' h
     simp only [extendAll] at h
@@ -147,16 +147,23 @@ theorem extendAll_frame {g : Bool} {diff ns : Nat} {l : List BA} : ∀ {s s' : S
         cases h
         have f1 := extendOne_frame h1
         have f2 := ih h2
-        exact ⟨f1.1.trans f2.1, by simp [sumCv, f1.2, f2.2]⟩
+        exact ⟨f1.1.trans f2.1, by simp [sumCv, f1.2, f2.2.1], by simp [f1.2, f2.2.2]⟩
 
-theorem adjust_sum {bas : List BA} : ∀ {xs : List Int} {wp cp mtc mb : Nat} {bas' : List BA} {wp' cp' mtc' mb' : Nat},
-    adjust bas xs wp cp mtc mb = some (bas', wp', cp', mtc', mb') →
-    cp' + sumCv bas = cp + sumCv bas' ∧ wp' + cp' = wp + cp := by
+/-- no per-blobber decrement of `adjustChallengePool` exceeds the blobber's challenge value (no `uint64` wrap) -/
+def noWrapCv : List Nat → List Int → Bool
+  | [], _ => true
+  | _, [] => true
+  | c :: cs, x :: xs => (decide (x ≥ 0) || decide ((-x).toNat ≤ c)) && noWrapCv cs xs
+
+def noWrap (bas : List BA) (xs : List Int) : Bool := noWrapCv (bas.map (·.cv)) xs
+
+theorem adjust_pools {bas : List BA} : ∀ {xs : List Int} {wp cp mtc mb : Nat} {bas' : List BA} {wp' cp' mtc' mb' : Nat},
+    adjust bas xs wp cp mtc mb = some (bas', wp', cp', mtc', mb') → wp' + cp' = wp + cp := by
   induction bas with
   | nil =>
     intro xs wp cp mtc mb bas' wp' cp' mtc' mb' h
     cases xs with
-    | nil => simp only [adjust] at h; cases h; simp [sumCv]
+    | nil => simp only [adjust] at h; cases h; rfl
     | cons x xs => simp [adjust] at h
   | cons d ds ih =>
     intro xs wp cp mtc mb bas' wp' cp' mtc' mb' h
@@ -172,7 +179,6 @@ theorem adjust_sum {bas : List BA} : ∀ {xs : List Int} {wp cp mtc mb : Nat} {b
           · rename_i hwp _ ds' wp1 cp1 mtc1 mb1 hrec
             cases h
             have := ih hrec
-            simp only [sumCv]
             omega
       · split at h
         · cases h
@@ -181,7 +187,47 @@ theorem adjust_sum {bas : List BA} : ∀ {xs : List Int} {wp cp mtc mb : Nat} {b
           · rename_i hc _ ds' wp1 cp1 mtc1 mb1 hrec
             cases h
             have := ih hrec
+            omega
+
+theorem adjust_cv {bas : List BA} : ∀ {xs : List Int} {wp cp mtc mb : Nat} {bas' : List BA} {wp' cp' mtc' mb' : Nat},
+    adjust bas xs wp cp mtc mb = some (bas', wp', cp', mtc', mb') → noWrap bas xs = true →
+    cp' + sumCv bas = cp + sumCv bas' := by
+  induction bas with
+  | nil =>
+    intro xs wp cp mtc mb bas' wp' cp' mtc' mb' h _
+    cases xs with
+    | nil => simp only [adjust] at h; cases h; simp [sumCv]
+    | cons x xs => simp [adjust] at h
+  | cons d ds ih =>
+    intro xs wp cp mtc mb bas' wp' cp' mtc' mb' h hnw
+    cases xs with
+    | nil => simp [adjust] at h
+    | cons x xs =>
+      simp only [noWrap, List.map_cons, noWrapCv, Bool.and_eq_true, Bool.or_eq_true, decide_eq_true_eq] at hnw
+      simp only [adjust] at h
+      split at h
+      · split at h
+        · cases h
+        · split at h
+          · cases h
+          · rename_i hwp _ ds' wp1 cp1 mtc1 mb1 hrec
+            cases h
+            have := ih hrec hnw.2
             simp only [sumCv]
+            omega
+      · rename_i hneg
+        split at h
+        · cases h
+        · split at h
+          · cases h
+          · rename_i hc _ ds' wp1 cp1 mtc1 mb1 hrec
+            cases h
+            have := ih hrec hnw.2
+            have hle : (-x).toNat ≤ d.cv := by
+              rcases hnw.1 with h1 | h1
+              · exact absurd h1 hneg
+              · exact h1
+            simp only [sumCv, wrapSub, hle, if_true]
             omega
 
 theorem closeBlobbers_frame : ∀ {l : List BA} {per : List (Nat × Nat)} {s s' : State},
@@ -333,7 +379,11 @@ theorem commit_inv12 {s s' : State} {k i : Nat} {size : Int} {move : Nat} (h : c
     · cases h
 
 theorem respPass_inv12 {s s' : State} {k i D m V dp : Nat} {cr : List (Nat × Nat)}
-    (h : respPass s k i D m V dp cr = .ok s') (hi : Inv12 s) : Inv12 s' := by
+    (h : respPass s k i D m V dp cr = .ok s') (hv : s.nvr0 = false ∨ V = 0) (hi : Inv12 s) : Inv12 s' := by
+  have hvd : valDebit s.nvr0 D V = D := by
+    unfold valDebit; rcases hv with h0 | h0
+    · simp [h0]
+    · subst h0; simp
   unfold respPass at h
   split at h
   · cases h
@@ -351,7 +401,7 @@ theorem respPass_inv12 {s s' : State} {k i D m V dp : Nat} {cr : List (Nat × Na
         · cases h
           refine inv12_set rfl rfl ?_ hi
           have := sumCv_setBA (d' := { d with cv := d.cv - D }) hd
-          simp only at this ⊢; omega
+          simp only [hvd] at this ⊢; omega
     · cases h
 
 theorem updAdd_inv12 {s s' : State} {k ai : Nat} (h : updAdd s k ai = .ok s') (hi : Inv12 s) : Inv12 s' := by
@@ -381,7 +431,8 @@ theorem updReplaceAlive_inv12 {s s' : State} {k ai ri rw cc dp : Nat}
   · cases h
 
 theorem updExtend_inv12 {s s' : State} {k size : Nat} {ds : List Int}
-    (h : updExtend s k size ds = .ok s') (hi : Inv12 s) : Inv12 s' := by
+    (h : updExtend s k size ds = .ok s') (hnw : ∀ a, s.allocs k = some a → noWrap a.bas ds = true) (hi : Inv12 s) :
+    Inv12 s' := by
   unfold updExtend at h
   split at h
   · rename_i a cp ha hcp
@@ -401,7 +452,7 @@ theorem updExtend_inv12 {s s' : State} {k size : Nat} {ds : List Int}
           · rename_i bas2 wp' cp' mtc' mb' h2
             cases h
             have f1 := extendAll_frame h1
-            have a2 := adjust_sum h2
+            have a2 := adjust_cv h2 (by have := hnw a ha; unfold noWrap at this ⊢; rw [f1.2.2]; exact this)
             have hi1 := inv12_frame f1.1 hi
             refine inv12_set rfl rfl ?_ hi1
             simp only
@@ -435,5 +486,94 @@ theorem close_removes {s s' : State} {fin : Bool} {k : Nat} {c : Caller} {X : Na
     all_goals
       cases h
       exact ⟨Map.set_same _ _ _, Map.set_same _ _ _⟩
+
+
+/-! ## the phases of `update` -/
+
+/-- the state an update's extend phase starts from, and whether the extend phase runs -/
+def preExtend (s : State) (k : Nat) (caller : Caller) (value size : Nat) (ext : Bool) (add rem : Option Nat)
+    (rw cc dp : Nat) : Except Err (State × Bool) :=
+  match s.allocs k with
+  | none => .error (.fail "absent")
+  | some a =>
+    match caller with
+    | .client j =>
+      if a.exp < s.now then .error (.fail "expired") else
+      let ext := ext || decide (size > 0)
+      if j ≠ a.owner then
+        if !ext then .error (.fail "unauthorised") else
+        match updLock s k j value with
+        | .error e => .error e
+        | .ok s1 => .ok (s1, true)
+      else
+        match updLock s k j value with
+        | .error e => .error e
+        | .ok s1 =>
+          match updBlobbers s1 k add rem rw cc dp with
+          | .error e => .error e
+          | .ok s2 => .ok (s2, ext)
+    | _ => .error (.fail "unauthorised")
+
+theorem update_eq (s : State) (k : Nat) (c : Caller) (value size : Nat) (ext : Bool) (add rem : Option Nat)
+    (rw cc dp : Nat) (ds : List Int) :
+    update s k c value size ext add rem rw cc dp ds =
+      match preExtend s k c value size ext add rem rw cc dp with
+      | .error e => .error e
+      | .ok (s2, true) => updExtend s2 k size ds
+      | .ok (s2, false) => .ok s2 := by
+  unfold update preExtend
+  cases h1 : s.allocs k with
+  | none => rfl
+  | some a =>
+    dsimp only
+    cases c with
+    | client j =>
+      dsimp only
+      by_cases he : a.exp < s.now
+      · simp only [he, if_true]
+      · simp only [he, if_false]
+        by_cases hj : j = a.owner
+        · subst hj
+          simp only [ne_eq, not_true_eq_false, if_false]
+          cases h2 : updLock s k a.owner value with
+          | error e => rfl
+          | ok s1 =>
+            dsimp only
+            cases h3 : updBlobbers s1 k add rem rw cc dp with
+            | error e => rfl
+            | ok s2 =>
+              dsimp only
+              cases (ext || decide (size > 0)) <;> rfl
+        · have hj' : j ≠ a.owner := hj
+          simp only [ne_eq, hj, not_false_eq_true, if_true]
+          cases hx : (ext || decide (size > 0)) with
+          | false => rfl
+          | true =>
+            simp only [Bool.not_true, Bool.false_eq_true, if_false]
+            cases h2 : updLock s k j value with
+            | error e => rfl
+            | ok s1 => rfl
+    | blobber i => rfl
+    | other => rfl
+
+
+/-- the result of an admissible step, for scripted witnesses -/
+def after (s : State) (op : Op) : State :=
+  match step s op with
+  | .ok s' => s'
+  | .error _ => s
+
+def stepOk (s : State) (op : Op) : Bool :=
+  match step s op with
+  | .ok _ => true
+  | .error _ => false
+
+theorem stepRel_after {s : State} {op : Op} (h : stepOk s op = true) : stepRel s op (after s op) := by
+  unfold stepRel after
+  unfold stepOk at h
+  cases hr : step s op with
+  | ok s' => rfl
+  | error e => rw [hr] at h; cases h
+
 
 end ZChain.Storage
